@@ -838,6 +838,49 @@ fn serve() {
     }
 }
 
+extern "C" {
+    fn fork() -> i32;
+    fn waitpid(pid: i32, status: *mut i32, options: i32) -> i32;
+    fn _exit(code: i32) -> !;
+}
+
+/// Fork server for controlled nREPL runs: one job per input line,
+/// each executed in a forked child (a controlled run leaves parked
+/// threads behind, so it cannot share a process with the next one),
+/// one result line per job. The parent stays single-threaded and
+/// only pays for process start-up and lazy initialisation once.
+fn nrepl_serve() {
+    // Warm up lazily initialised state (regexes, the parsed prelude).
+    drop(Env::new(IdGenerator::default(), Vfs::default()));
+
+    let stdin = std::io::stdin();
+    for line in stdin.lock().lines() {
+        let Ok(line) = line else { break };
+        if line.trim().is_empty() {
+            continue;
+        }
+        let _ = std::io::stdout().flush();
+        let pid = unsafe { fork() };
+        if pid == 0 {
+            let job: J = serde_json::from_str(&line).unwrap_or(J::Null);
+            let out = crate::nrepl::verif_access::controlled_run(&job);
+            println!("{out}");
+            let _ = std::io::stdout().flush();
+            unsafe { _exit(0) };
+        } else if pid > 0 {
+            let mut status = 0;
+            unsafe { waitpid(pid, &mut status, 0) };
+            if status != 0 {
+                println!("{}", json!({"end": format!("CHILD-STATUS {status}"), "trace": [], "notes": [], "responses": [], "tasks": []}));
+                let _ = std::io::stdout().flush();
+            }
+        } else {
+            println!("{}", json!({"end": "FORK-FAILED", "trace": [], "notes": [], "responses": [], "tasks": []}));
+            let _ = std::io::stdout().flush();
+        }
+    }
+}
+
 /// Entry point: returns true when the process was invoked as
 /// `garden verif <mode>` and the mode has run.
 pub(crate) fn maybe_run() -> bool {
@@ -847,6 +890,7 @@ pub(crate) fn maybe_run() -> bool {
     }
     match args.get(2).map(|s| s.as_str()) {
         Some("serve") => serve(),
+        Some("nrepl-serve") => nrepl_serve(),
         Some("nrepl-run") => {
             let mut input = String::new();
             let _ = std::io::Read::read_to_string(&mut std::io::stdin(), &mut input);
